@@ -19,12 +19,20 @@ Ltac fgs :=
   repeat (rewrite fg_app); repeat (rewrite fg_when by reflexivity);
   repeat match goal with H : _ |- _ => rewrite H end; simpl; auto.
 
+Lemma fg_tail ps : fg (bare_star ps) = [] -> fg (v_params_tail ps) = [].
+Proof.
+  intros Hb. unfold v_params_tail. rewrite fg_app.
+  destruct (the_star false ps) as [[sn [[an ax]|]]|]; cbn [fst snd];
+    rewrite ?Hb, ?fg_when by reflexivity; simpl;
+    destruct (the_ss None ps) as [[nn x]|]; rewrite ?fg_when by reflexivity; reflexivity.
+Qed.
+
 (* no expression-level rule is switched by an option *)
 Lemma fg_exprs :
   (forall e c, fg (v_expr c e) = []) /\
   (forall es c, fg (v_exprs c es) = []) /\
   (forall a c before, fg (v_args c before a) = []) /\
-  (forall ps, (forall c, fg (v_defaults c ps) = []) /\ (forall before, fg (v_params before ps) = []) /\
+  (forall ps, (forall c, fg (v_defaults c ps) = []) /\ (forall before seen, fg (v_params before seen ps) = []) /\
               fg (bare_star ps) = []) /\
   (forall cl c, fg (v_clauses c cl) = []) /\
   (forall l c aug, fg (v_lhs c aug l) = []) /\
@@ -38,6 +46,7 @@ Proof.
            | H : forall _, fg _ = [] |- _ => rewrite H
            | H : forall _ _, fg _ = [] |- _ => rewrite H
            | H : forall _ _ _, fg _ = [] |- _ => rewrite H
+           | H : fg (bare_star ?q) = [] |- context [fg (v_params_tail ?q)] => rewrite (fg_tail q H)
            | H : fg _ = [] |- _ => rewrite H
            end;
     repeat (rewrite fg_when by reflexivity); simpl; auto;
@@ -104,7 +113,7 @@ Lemma vs_SIf c n cnd t f :
 Proof. reflexivity. Qed.
 Lemma vs_SAssign c aug l e : v_stmt o c (SAssign aug l e) = v_expr c e ++ v_lhs c aug l. Proof. reflexivity. Qed.
 Lemma vs_SDef c n nn x ps body :
-  v_stmt o c (SDef n nn x ps body) = v_defaults c ps ++ v_params [] ps ++ bare_star ps ++ v_stmts o (in_body c) body.
+  v_stmt o c (SDef n nn x ps body) = v_defaults c ps ++ v_params [] [] ps ++ v_params_tail ps ++ v_stmts o (in_body c) body.
 Proof. reflexivity. Qed.
 Lemma vs_SFor c n vars iter body :
   v_stmt o c (SFor n vars iter body) =
@@ -145,10 +154,11 @@ Proof.
   { intros l c aug r n Hg Hin. apply (In_fg r n _ Hg) in Hin. rewrite FL in Hin. exact Hin. }
   assert (ND : forall ps c r n, gated r = true -> ~ In (r, n) (v_defaults c ps)).
   { intros ps c r n Hg Hin. apply (In_fg r n _ Hg) in Hin. destruct (FP ps) as [Hd _]. rewrite Hd in Hin. exact Hin. }
-  assert (NP : forall ps r n, gated r = true -> ~ In (r, n) (v_params [] ps)).
+  assert (NP : forall ps r n, gated r = true -> ~ In (r, n) (v_params [] [] ps)).
   { intros ps r n Hg Hin. apply (In_fg r n _ Hg) in Hin. destruct (FP ps) as [_ [Hp _]]. rewrite Hp in Hin. exact Hin. }
-  assert (NB : forall ps r n, gated r = true -> ~ In (r, n) (bare_star ps)).
-  { intros ps r n Hg Hin. apply (In_fg r n _ Hg) in Hin. destruct (FP ps) as [_ [_ Hb]]. rewrite Hb in Hin. exact Hin. }
+  assert (NB : forall ps r n, gated r = true -> ~ In (r, n) (v_params_tail ps)).
+  { intros ps r n Hg Hin. apply (In_fg r n _ Hg) in Hin. destruct (FP ps) as [_ [_ Hb]].
+    rewrite (fg_tail ps Hb) in Hin. exact Hin. }
   assert (GW : forall b r0 n0 r n, gated r = true -> In (r, n) (when b r0 n0) -> gated r0 = false -> False).
   { intros b r0 n0 r n Hg Hin H0. destruct b; simpl in Hin; [|contradiction].
     destruct Hin as [E|[]]. inversion E; subst. congruence. }
